@@ -21,6 +21,7 @@ type FuncResult struct {
 	Trusted     []string
 	Axioms      []*Term
 	Skipped     string
+	ContractErr string
 }
 
 func verifyFunction(fn *ssa.Function) (res *FuncResult) {
@@ -39,6 +40,12 @@ func verifyFunction(fn *ssa.Function) (res *FuncResult) {
 		if r := recover(); r != nil {
 			if u, ok := r.(unsupported); ok {
 				res.Unsupported = u.msg
+				res.Events = nil
+				res.Obls = nil
+				return
+			}
+			if ce, ok := r.(contractErr); ok {
+				res.ContractErr = ce.msg
 				res.Events = nil
 				res.Obls = nil
 				return
@@ -72,7 +79,7 @@ func verifyFunction(fn *ssa.Function) (res *FuncResult) {
 		for _, c := range sp.Requires {
 			t, err := ex.safeEval(env, func() *Term { return env.boolOf(c.E) })
 			if err != "" {
-				fatal("contract error in requires of %s: %s", res.Name, err)
+				contractFatal("contract error in requires of %s: %s", res.Name, err)
 			}
 			ex.assume(t)
 		}
@@ -86,13 +93,13 @@ func verifyFunction(fn *ssa.Function) (res *FuncResult) {
 		for _, m := range sp.Modifies {
 			_, err := ex.safeEval(env, func() *Term { ex.frameLocs = append(ex.frameLocs, env.locsOf(m)...); return True })
 			if err != "" {
-				fatal("contract error in modifies of %s: %s", res.Name, err)
+				contractFatal("contract error in modifies of %s: %s", res.Name, err)
 			}
 		}
 		for _, gs := range sp.GhostSets {
 			_, err := ex.safeEval(env, func() *Term { ex.frameLocs = append(ex.frameLocs, env.locsOf(gs.Loc)...); return True })
 			if err != "" {
-				fatal("contract error in ghostset of %s: %s", res.Name, err)
+				contractFatal("contract error in ghostset of %s: %s", res.Name, err)
 			}
 		}
 	}
@@ -135,7 +142,7 @@ func verifyFunction(fn *ssa.Function) (res *FuncResult) {
 				return True
 			})
 			if err != "" {
-				fatal("contract error in ghostset of %s: %s", res.Name, err)
+				contractFatal("contract error in ghostset of %s: %s", res.Name, err)
 			}
 			srt := memArrays[locs[0].arr]
 			out.set(locs[0].arr, Store(out.get(locs[0].arr, srt), locs[0].addr, v))
@@ -143,7 +150,7 @@ func verifyFunction(fn *ssa.Function) (res *FuncResult) {
 		for _, c := range sp.Ensures {
 			t, err := ex.safeEval(post, func() *Term { return post.boolOf(c.E) })
 			if err != "" {
-				fatal("contract error in ensures of %s: %s", res.Name, err)
+				contractFatal("contract error in ensures of %s: %s", res.Name, err)
 			}
 			name := ""
 			if len(c.Labels) > 0 {
@@ -160,7 +167,7 @@ func verifyFunction(fn *ssa.Function) (res *FuncResult) {
 			var locs []Loc
 			_, err := ex.safeEval(env, func() *Term { locs = env.locsOf(pc.E); return True })
 			if err != "" {
-				fatal("contract error in preserves of %s: %s", res.Name, err)
+				contractFatal("contract error in preserves of %s: %s", res.Name, err)
 			}
 			var cs []*Term
 			for _, l := range locs {
@@ -191,6 +198,7 @@ func verifyFunction(fn *ssa.Function) (res *FuncResult) {
 	}
 	sort.Strings(res.Trusted)
 	res.Axioms = append(ex.stringAxioms(), globalAxioms...)
+	res.Axioms = append(res.Axioms, scopedAxiomsFor(ex.events)...)
 	res.Axioms = append(res.Axioms, ex.heapValidityAxioms()...)
 	nameObligations(res)
 	return
